@@ -12,6 +12,7 @@ import (
 	"grol.io/grol/ast"
 	"grol.io/grol/token"
 	"grol.io/grol/trie"
+	"grol.io/grol/verifhook"
 )
 
 const NumRegisters = 8
@@ -169,6 +170,7 @@ func (e *Environment) SaveGlobals(to io.Writer, maxValueLen int) (int, error) {
 					return n, err
 				}
 				n++
+				verifhook.Point("saveglobals.binding", n)
 				continue
 			}
 			// Anonymous function are like other variables.
@@ -185,6 +187,7 @@ func (e *Environment) SaveGlobals(to io.Writer, maxValueLen int) (int, error) {
 			return n, err
 		}
 		n++
+		verifhook.Point("saveglobals.binding", n)
 	}
 	return n, nil
 }
